@@ -361,7 +361,8 @@ iwrc iwjsreg_replace(struct iwjsreg *reg, const char *path, struct jbl_node *jso
       jbn_remove_item(p, n);
       jbn_visit2(n, 0, _destroy_visitor);
     } else { // Remove the whoole tree keeping the reg->root
-      for (struct jbl_node *n = reg->root->child; n; n = n->next) {
+      for (struct jbl_node *n = reg->root->child, *next; n; n = next) {
+        next = n->next; // the visitor frees n
         jbn_visit2(n, 0, _destroy_visitor);
       }
       reg->root->child = 0;
